@@ -89,8 +89,8 @@ fn scenario<S: Service>(plan: &Plan, errs: &Arc<Mutex<Errs>>) {
     let mut pend: Vec<(usize, u64, Pend<S>)> = Vec::new();
     // (server slot, request tag, request length, active request)
     let mut acts: Vec<(usize, u64, usize, Act<S>)> = Vec::new();
-    // (tag, len, response, tag of the request it answers)
-    let mut resps: Vec<(u64, usize, Response<S, [u64], ()>, u64)> = Vec::new();
+    // (tag, len, response, client slot that received it)
+    let mut resps: Vec<(u64, usize, Response<S, [u64], ()>, usize)> = Vec::new();
     let mut sent: BTreeMap<u64, usize> = BTreeMap::new();
     let mut tag = 0xC0_0000u64;
     for (opi, o) in plan.threads[0].iter().enumerate() {
@@ -209,7 +209,7 @@ fn scenario<S: Service>(plan: &Plan, errs: &Arc<Mutex<Errs>>) {
                                     if !intact(pl, t, len) {
                                         e.err("corrupt", format!("{what}: response {t:#x} was sent with {len} elements; the client reads {} elements starting {:x?}", pl.len(), &pl[..pl.len().min(4)]));
                                     }
-                                    resps.push((t, len, r, pend[k].1));
+                                    resps.push((t, len, r, pend[k].0));
                                 }
                             }
                         }
@@ -217,9 +217,12 @@ fn scenario<S: Service>(plan: &Plan, errs: &Arc<Mutex<Errs>>) {
                         Err(iceoryx2::port::ReceiveError::ExceedsMaxBorrows) => {
                             e.probe("client_receive_refused");
                             // responses that were skipped or dropped must give their borrow back
-                            let held = resps.iter().filter(|x| x.3 == pend[k].1).count();
+                            // the limit is per channel, and a channel is re-used by the next request: responses of
+                            // earlier requests that are still held count. Sound bound: all responses this client
+                            // slot holds, whatever channel they came from.
+                            let held = resps.iter().filter(|x| x.3 == pend[k].0).count();
                             if held < p("max_borrow").max(1) {
-                                e.err("borrow-leaked", format!("{what}: receive on the pending response of request {:#x} fails with ExceedsMaxBorrows although only {held} of {} responses of it are held", pend[k].1, p("max_borrow").max(1)));
+                                e.err("borrow-leaked", format!("{what}: receive on the pending response of request {:#x} fails with ExceedsMaxBorrows although client {} holds only {held} responses in total (limit {} per channel)", pend[k].1, pend[k].0, p("max_borrow").max(1)));
                             }
                         }
                         Err(_) => e.probe("client_receive_refused"),
@@ -318,7 +321,7 @@ impl Harness for ReqRespDynHarness {
         vec![("seq", 1, true)]
     }
     fn quick_runs(&self) -> u64 {
-        if self.ipc { 1500 } else { 1000 }
+        if self.ipc { 1000 } else { 600 }
     }
     fn isolate(&self) -> bool {
         true
